@@ -107,7 +107,7 @@ def generate(batch: str, r: Rng, idx: int, tier: str) -> Dict[str, Any]:
     feat = machine.gen_features(r.child("feat"), {"timers": True, "imr_writes": True, "isr_writes": True,
                                                   "wait": True, "halt": True, "ir": True, "calls": True,
                                                   "far_calls": True, "nested": True, "off": True,
-                                                  "keys": False, "onk": False, "h_lowpower": True})
+                                                  "keys": False, "onk": False, "h_lowpower": True, "selfmod": True})
     feat["timers"] = True
     scn = machine.gen_machine_scenario(r, "rs-machine", feat, boundaries=r.choice([20, 60, 150, 300]), faulty=False)
     scn["kind"] = "async"
